@@ -34,9 +34,9 @@ Section Protocol.
   Variable find : str -> Z -> option mres.
   Variable fl : flags.
   Variable s : str.
-  (* the only thing assumed of the engine: a match found when scanning from p lies in [p, |s|] *)
+  (* the only thing assumed of the engine: a match lies inside the subject *)
   Hypothesis Hwf : forall p m, 0 <= p <= slen s -> find s p = Some m ->
-                               p <= ms m /\ ms m <= me m /\ me m <= slen s.
+                               0 <= ms m /\ ms m <= me m /\ me m <= slen s.
 
   (* 3. lastIndex stays inside the subject after any exec under g/y, is reset to 0 on failure,
         a lastIndex beyond the length fails, and a sticky match starts exactly AT lastIndex *)
